@@ -25,7 +25,9 @@ CONSTANTS Replicas,      \* actor numbers, e.g. {1, 2}
           Depth,         \* number of steps per behaviour
           Keys,          \* map keys of the root object that are edited
           WithList,      \* TRUE: the base document holds a list at key "l"
-          WithInserts        \* TRUE: list inserts are part of the programs
+          WithInserts,       \* TRUE: list inserts are part of the programs
+          WithHist           \* TRUE: finished behaviours also carry the expected views at every
+                             \* set of historical heads (all antichains) of the acting replica
 
 IntV(n) == [k |-> "int", s |-> ToString(n), n |-> 0, toks |-> <<>>]
 CtrV(n) == [k |-> "counter", s |-> "", n |-> n, toks |-> <<>>]
@@ -46,8 +48,20 @@ BaseOps ==
      MkOp(<<3, 1>>, LIST, FALSE, "", <<2, 1>>, TRUE, "set", IntV(7), {})}
   ELSE {}
 
-VARIABLES known, hist
-vars == <<known, hist>>
+(* chgs: change id (= id of its first op) -> [ops : set of op ids, deps : set of change ids].
+   Every call is committed as its own change; the base document is one change. *)
+VARIABLES known, hist, chgs
+vars == <<known, hist, chgs>>
+
+Have(r) == {c \in DOMAIN chgs : chgs[c].ops \subseteq {o.id : o \in known[r]}}
+HeadsC(C) == {c \in C : \A d \in C : c \notin chgs[d].deps}
+RECURSIVE AncCR(_, _)
+AncCR(frontier, acc) ==
+  IF frontier = {} THEN acc
+  ELSE LET nxt == UNION {chgs[c].deps : c \in frontier} \ acc IN AncCR(nxt, acc \cup nxt)
+AncC(H) == AncCR(H, H)
+AntichainsC(C) == {H \in SUBSET C : H # {} /\ \A x \in H : \A y \in H : x # y => x \notin AncC({y})}
+OpsAt(r, H) == {o \in known[r] : \E c \in AncC(H) : o.id \in chgs[c].ops}
 
 MaxCtr(O) == IF O = {} THEN 0 ELSE Max({o.id[1] : o \in O})
 NextId(r) == <<MaxCtr(known[r]) + 1, r>>
@@ -83,6 +97,9 @@ PutAllowed(R, v) == ~(v.k = "counter" /\ R # {} /\ IsCtr(Winner(R)))
 
 Record(r, call, res, newops) ==
   /\ known' = [known EXCEPT ![r] = @ \cup newops]
+  /\ chgs' = IF newops = {} THEN chgs
+             ELSE LET o == CHOOSE x \in newops : TRUE IN
+                  (o.id :> [ops |-> {o.id}, deps |-> HeadsC(Have(r))]) @@ chgs
   /\ hist' = Append(hist, [r |-> r, call |-> call, res |-> res,
                            exp |-> Interp(known[r] \cup newops, "cp")])
 
@@ -121,9 +138,13 @@ Merge(r) ==
   \E s \in Replicas \ {r} :
     /\ ~(known[s] \subseteq known[r])
     /\ known' = [known EXCEPT ![r] = @ \cup known[s]]
+    /\ UNCHANGED chgs
     /\ hist' = Append(hist, [r |-> r, merge |-> s, res |-> "ok", exp |-> Interp(known[r] \cup known[s], "cp")])
 
-Init == known = [r \in Replicas |-> BaseOps] /\ hist = <<>>
+Init ==
+  /\ known = [r \in Replicas |-> BaseOps]
+  /\ hist = <<>>
+  /\ chgs = IF BaseOps = {} THEN <<>> ELSE (<<1, 1>> :> [ops |-> {o.id : o \in BaseOps}, deps |-> {}])
 
 Next == Len(hist) < Depth /\ \E r \in Replicas : MapCall(r) \/ ListCall(r) \/ Merge(r)
 
@@ -156,12 +177,21 @@ LocalEffect ==
 Convergence ==
   \A r \in Replicas : \A s \in Replicas : known[r] = known[s] => View(r) = View(s)
 
-Emit == (Len(hist) = Depth) => PrintT(<<"REPLAY", ToJson(hist)>>)
+(* C07 at design level and as replay data: reads at historical heads H are the interpretation
+   of the ops of H's ancestors. *)
+HistReads(r) == {[heads |-> H, exp |-> Interp(OpsAt(r, H), "cp")] : H \in AntichainsC(Have(r))}
+Out == IF WithHist /\ hist # <<>>
+       THEN Append(hist, [r |-> hist[Len(hist)].r, hreads |-> HistReads(hist[Len(hist)].r)])
+       ELSE hist
+Emit == (Len(hist) = Depth) => PrintT(<<"REPLAY", ToJson(Out)>>)
 
 (* Transition coverage: with this VIEW TLC identifies states that agree on the replicas' op   *)
 (* sets and on the last step taken, so exhaustive search visits every (state, incoming        *)
 (* transition) pair once, each with one (shortest) history; EmitAll prints that history.      *)
 LastStep == IF hist = <<>> THEN <<>> ELSE <<[x \in DOMAIN hist[Len(hist)] \ {"exp"} |-> hist[Len(hist)][x]]>>
 TransitionView == <<known, LastStep>>
-EmitAll == hist # <<>> => PrintT(<<"REPLAY", ToJson(hist)>>)
+(* state coverage: one (shortest) history per distinct vector of replica op sets; used for the
+   historical-read replays, whose expected results depend on the state only *)
+StateView == <<known, IF hist = <<>> THEN 0 ELSE hist[Len(hist)].r>>
+EmitAll == hist # <<>> => PrintT(<<"REPLAY", ToJson(Out)>>)
 =============================================================================
